@@ -258,6 +258,41 @@ fn run_windows(cx: &mut CaseCx, case: &Value) {
       }
     }
   }
+  // (b'') a report window taken as the ROOT of the client's own derivation: (i) through the public helpers
+  // (window -> strobe_digest "star_derive_randoms" index 0..2 -> derive_ske_key), (ii) without knowing any label:
+  // the observer generates a report of its OWN with the window as randomness and a payload it knows, takes the
+  // keystream of that report's first cipher block and applies it to the victim's ciphertext
+  if !hit {
+    let ct = msg.ciphertext.to_bytes();
+    let n = ct.len().min(pl.len()).min(40);
+    'roots: for at in 0..=(enc.len().saturating_sub(32)) {
+      let win: [u8; 32] = enc[at..at + 32].try_into().unwrap();
+      for i in 0..3u8 {
+        let mut r = [0u8; 32];
+        sta_rs::strobe_digest(&win, &[&[i]], "star_derive_randoms", &mut r);
+        let mut k = vec![0u8; 16];
+        sta_rs::derive_ske_key(&r, &epoch, &mut k);
+        if try_key(cx, &k, "a 32-byte window of the report expanded like the client's randomness (window -> derived value -> payload key)", at) {
+          hit = true;
+          break 'roots;
+        }
+      }
+      if n >= 12 {
+        cx.eval();
+        let own_aux = Some(vec![0x5au8; 64]);
+        if let Ok(own) = gen_report(b"observer's own measurement", &epoch, t, &win, &own_aux) {
+          let own_ct = own.ciphertext.to_bytes();
+          let own_pl = payload(b"observer's own measurement", &own_aux);
+          let m = n.min(own_ct.len()).min(own_pl.len());
+          if m >= 12 && (0..m).all(|k| (ct[k] ^ own_ct[k] ^ own_pl[k]) == pl[k]) {
+            cx.viol("C03/decryptable-with-report-value/own-report-keystream", format!("a report the observer generates itself with bytes {}..{} of the victim's report as randomness encrypts under the victim's keystream: its first {} payload bytes open the victim's", at, at + 32, m), json!({"offset": at, "aux_len": alen}));
+            hit = true;
+            break 'roots;
+          }
+        }
+      }
+    }
+  }
   for (name, key) in [("the all-zero key", vec![0u8; 16]), ("an empty key", vec![]), ("the tag", msg.tag.clone()), ("the public label as key", b"star_encrypt".to_vec())] {
     if !hit {
       hit |= try_key(cx, &key, name, 0);
